@@ -4,6 +4,19 @@ import json, os, subprocess
 VERIF = os.path.dirname(os.path.dirname(os.path.abspath(__file__)))
 
 CHECKS = {
+    'C02': dict(
+        category='model_checking',
+        text='MIR symbolic execution of every writer (insert / remove / remove_weak / clear / WriteBatch::commit): z3 decides on every acknowledged path that the complete journal unit is appended and - unless manual persist - '
+             'flushed to the OS before the first memtable apply and before Ok, all under one hold of the journal lock, and that the unit carries the seqno, keyspace id, kind, key and value of the call; that batches and transactions '
+             'are created with durability Some(Buffer) by default; of recover_journals over a symbolic directory (3 entries, symbolic ids, symbolic *.jnl flags; the sort is modelled by one continuation per feasible order): '
+             'active = highest id, sealed = the rest ascending; of Database::recover (keyspaces, then sealed journals in that order, then the active journal) and Writer::rotate (new journal = old id + 1). '
+             'Torn tails, the per-record replay rule, counters and eviction are decided in C03 / C04 / C11 / C10. Counterexamples are replayed natively: 37+ process-crash images (directory copied while the process lives) over workloads '
+             'with single writes, batches, clears, keyspace creation/deletion, rotation, flush, compaction, journal rotation and eviction; each image must reopen and equal the acknowledged state.',
+        design_ref='DESIGN.md §5 C02',
+        note='Trusted: F1/F2 (BufWriter::flush hands bytes to the OS in order; a process crash keeps them), E1. Outside: a crash in the middle of a system call issued inside lsm-tree (table/manifest writes), '
+             'thread schedules finer than lock events, > 3 journal files in the directory scan.',
+        technique='MIR symbolic execution + z3 (event-order and dataflow validity queries, symbolic sort); native process-crash image replay',
+    ),
     'C13': dict(
         category='model_checking',
         text='Symbolic execution of the MIR of every writer (insert/remove/remove_weak/clear/WriteBatch::commit, Database::persist, '
@@ -141,6 +154,18 @@ CHECKS = {
         design_ref='DESIGN.md §5 C04',
         note='Trusted: E8/E2 (tables report their highest seqno; the highest seqno of a key wins), journal reader by contract (bytes: C03/C15). Outside: lsm-tree table/version recovery, recover_keyspaces directory scan (stubbed), > 2 keyspaces / 2 batches.',
         technique='MIR symbolic execution of both recovery loops over a symbolic journal/keyspace state + z3; native reopen replay against a reference map',
+    ),
+    'C08': dict(
+        category='model_checking',
+        text='MIR symbolic execution of every method of BaseTransaction as one step from an arbitrary transaction state (ephemeral memtables for this and another keyspace, symbolic private counter): z3 decides that writes append exactly one entry '
+             '(caller\'s key/value, kind, seqno = counter) to this keyspace\'s ephemeral memtable and increase the counter, with no effect outside; that point reads consult the own entry first (SeqNo::MAX, tombstone -> absent) and otherwise the tree at the '
+             'snapshot instant; that scans hand the tree this keyspace\'s ephemeral memtable bounded by the current counter; that fetch_update / update_fetch / take apply f once to get() and write / return as documented; that commit submits one batch '
+             'holding the newest entry of every key (3 entries, symbolic key equalities) with the transaction\'s durability; that rollback has no effect; and that the single-writer database takes its mutex before opening the snapshot and releases it after the commit. '
+             'Counterexamples are replayed natively against an overlay-map model of transactions (36 programs x endings on both databases, reads from outside before/after, reopen) and a two-thread read-modify-write race.',
+        design_ref='DESIGN.md §5 C08',
+        note='Trusted: E2 for lsm_tree::Memtable (highest seqno of a key wins; iteration by key then seqno descending; tree scans merge the ephemeral memtable up to the bound), counter starts at 2^63. '
+             'Outside: schedules of competing single-writer transactions finer than the mutex, more than 3 entries in the commit loop, lsm-tree merge internals.',
+        technique='MIR symbolic execution (one inductive step per method from an arbitrary state) + z3; native overlay-model replay',
     ),
     'C10': dict(
         category='model_checking',
